@@ -13,6 +13,7 @@ Fixed frame (module c01mod, routine s):
   locals: integer i, j; real x; logical lx
 '''
 import itertools
+import os
 import random
 import re
 from fractions import Fraction
@@ -448,6 +449,14 @@ class Prog:
         self.body = B(body)
         self.dom = dict(DEFAULT_DOM)
         self.dom.update(dom or {})
+        # an input the program never mentions cannot matter: keep one value
+        used = {nd["name"] for nd in walk(self.body) if nd.get("k") in ("ref", "aref")}
+        used |= {nd["var"] for nd in walk(self.body) if nd.get("k") == "loop"}
+        if called(self.body):
+            used |= {"gk", "gv"}
+        for nm in self.dom:
+            if nm not in used:
+                self.dom[nm] = self.dom[nm][:1]
         self.fills = list(fills)
         self.tags = set(tags)
 
@@ -595,6 +604,16 @@ def fam_where():
                                                                           ("9" if st.startswith("ia") else "9.0")]))],
                         fills=[1, 3], tags={"where"},
                         dom={"n": [1, 2, 3]} if "n" in mk_ or "n" in st else None))
+    # WHERE nested in WHERE
+    out += [
+        Prog("wherenest|1", [where("b(:) > 0.0", [where("e(:) > 2.0", ["e(:) = 3.0"])])], fills=fills),
+        Prog("wherenest|2", [where("b(:) > 0.0", ["b(:) = 1.0", where("e(:) > 0.0", ["e(:) = b(:)"], (None, ["e(:) = -1.0"]))],
+                                   (None, ["e(:) = 7.0"]))], fills=fills),
+        Prog("wherenest|3", [where("mk(:)", [where1("b(:) > 0.0", "b(:) = 0.0")])], fills=fills),
+        Prog("wherenest|4", [where("mk(:)", ["b(:) = 1.0"], (None, [where("e(:) > 0.0", ["e(:) = 0.0"], ("b(:) > 0.0", ["e(:) = 5.0"]))]))],
+             fills=fills),
+        Prog("wherenest|5", [where("b(:) > 0.0", [where("e(:) > 0.0", ["b(:) = e(:)"], (None, ["b(:) = -e(:)"])), "e(:) = 0.0"])], fills=fills),
+    ]
     # whole-array names (no array notation), WHERE inside other constructs
     out += [
         Prog("wherewhole|1", [where1("b > 0.0", "b = 0.0")], fills=fills),
@@ -836,6 +855,8 @@ FAMILIES = [fam_select, fam_where, fam_array, fam_intrinsic, fam_loops, fam_if, 
 
 # ------------------------------------------- thorough: random combinations
 def _rand_stmt(rng, depth, pool):
+    '''depth 0/1 may open a DO loop (at most 4 x 4 iterations in total), a DO
+    WHILE only at depth 0 with a loop-free body: values stay in 32-bit range'''
     r = rng.random()
     if depth >= 2 or r < 0.45:
         return S(rng.choice(pool["simple"])) if rng.random() < 0.7 else rng.choice(pool["compound"])
@@ -847,31 +868,54 @@ def _rand_stmt(rng, depth, pool):
         c = rng.choice(["n > 1", "flag", "n > m .and. flag", "t > u", ".not. flag .or. n == 2"])
         return if_(c, [_rand_stmt(rng, depth + 1, pool)],
                    [_rand_stmt(rng, depth + 1, pool)] if rng.random() < 0.5 else [])
-    if r < 0.9:
-        cs = rng.choice([[("1", 1), ("2:3", 1), ("default", 1)], [(":0", 1), ("2, 4:", 1)],
-                         [("default", 1), ("1:2", 1)]])
+    if r < 0.9 or depth > 0:
+        cs = rng.choice([["1", "2:3", "default"], [":0", "2, 4:"], ["default", "1:2"],
+                         ["-1:1", "3", "5:"]])
         return select(rng.choice(["n", "n + m", "k"]),
-                      *[(it, [_rand_stmt(rng, depth + 1, pool)]) for it, _ in cs])
+                      *[(it, [_rand_stmt(rng, depth + 1, pool)]) for it in cs])
     return while_("k < 3", ["k = k + 1", _rand_stmt(rng, 2, pool)])
 
 
 def fam_random(seed, count):
     rng = random.Random(seed)
-    simple = ["k = k + n / m", "t = t - (u - 1.0)", "b(:) = b(:) + e(:)", "b(2:4) = e(1:3) * t", "k = mod(k + n, 5)",
-              "u = (t ** 2) / 2.0", "ia(m) = ia(m) / 2", "lg = lg .neqv. (n > m)", "c = c + 1.0", "t = sum(b, mask=mk)",
+    simple = ["k = k + n / m", "t = t - (u - 1.0)", "b(:) = b(:) + e(:)", "b(2:4) = e(1:3) + t", "k = mod(k + n, 5)",
+              "u = (t ** 2) / 2.0", "ia(m) = ia(m) / 2", "lg = lg .neqv. (n > m)", "c = c + 1.0", "u = sum(e, mask=mk)",
               "gv(:) = gv(4:1:-1)", "k = k + size(a) - lbound(a, 1)", "a(n + 3) = -a(n + 3)", "mk(:) = b(:) > e(:)",
-              "t = t - real(k / 2)", "d(:, 1) = d(:, 2) - d(:, 1)", "k = -k ** 2 + 3", "gk = gk + 1"]
+              "t = t - real(k / 2)", "d(:, 1) = d(:, 2) - d(:, 1)", "k = mod(k * k, 7) - 3", "gk = gk + 1",
+              "x = maxval(e) - real(n)", "k = (k - 2) ** 2 / 3", "ia(1:3) = ia(2:4) - n", "lg = b(2) > e(m) .or. flag"]
     compound = [where1("b(:) > 0.0", "b(:) = -b(:)"), where("mk(:)", ["e(:) = e(:) + 1.0"], (None, ["e(:) = 0.0"])),
                 where("b(:) > e(:)", ["b(:) = e(:)"], ("b(:) < 0.0", ["b(:) = 0.0"])),
-                call("h_add", "t", "u"), call("h_vec", "b(2:4)", "t"), call("h_cnt", "k"), if1("n > 2", "k = k + 1"),
-                if1("flag", "b(:) = 0.0"), call("h_swap", "b(1)", "e(1)"), where1("gv(:) > 26.0", "gv(:) = gv(:) - 26.0"),
-                call("h_vec0", "c(0:2)", "m")]
+                call("h_add", "t", "u"), call("h_vec", "b(2:4)", "u"), call("h_cnt", "k"), if1("n > 2", "k = k + 1"),
+                if1("flag", "b(:) = 0.0"), call("h_swap", "b(1)", "e(1)"), where1("gv(:) > 0.0", "gv(:) = gv(:) - 26.0"),
+                if1("k > 6", "exit"), if1("mod(k, 2) == 0", "cycle")]
     pool = {"simple": simple, "compound": compound}
     out = []
     for q in range(count):
-        body = ["k = k - 3"] + [_rand_stmt(rng, 0, pool) for _ in range(rng.randint(2, 4))]
-        out.append(Prog(f"rand|{seed}|{q}", body, dom={"n": [-1, 1, 2, 4], "m": [1, 2], "flag": [True, False]},
+        body = ["k = k - 3", "x = 0.0"] + [_rand_stmt(rng, 0, pool) for _ in range(rng.randint(2, 4))]
+        # EXIT / CYCLE are only legal inside a loop: drop those generated outside one
+        body = _legal(body, False)
+        out.append(Prog(f"rand|{seed}|{q}", body, dom={"n": [-1, 2, 4], "m": [1, 2], "flag": [True, False]},
                         fills=[1, 3], tags={"random"}))
+    return out
+
+
+def _legal(body, inloop):
+    out = []
+    for s in body:
+        s = dict(s) if isinstance(s, dict) else S(s)
+        k = s["k"]
+        if k in ("exit", "cycle") and not inloop:
+            continue
+        if k == "if":
+            s["then"] = _legal(s["then"], inloop)
+            s["else"] = _legal(s["else"], inloop)
+            if s.get("single") and not s["then"]:
+                continue
+        elif k in ("loop", "while"):
+            s["body"] = _legal(s["body"], True)
+        elif k == "select":
+            s["cases"] = [dict(c, body=_legal(c["body"], inloop)) for c in s["cases"]]
+        out.append(s)
     return out
 
 
@@ -880,7 +924,7 @@ def programs(tier, seed=0):
     for f in FAMILIES:
         out += f()
     if tier != "quick":
-        out += fam_random(seed, 1500)
+        out += fam_random(seed, int(os.environ.get("C01_RANDOM", "800")))
     ids = set()
     for p in out:
         if p.pid in ids:
